@@ -49,7 +49,7 @@ ASSUMPTIONS = {"C16": [
 EXPECTED_PROBES = {"C16": ["probe:context_switch", "probe:ident_reused", "probe:hyper_branch", "probe:optimal_branch",
                            "kind:preset:auto", "kind:auto-nocache", "kind:auto-cache", "kind:reusable-hyper", "kind:reusable-rgreedy",
                            "sampler:pct", "sampler:walk", "probe:same_size_pair_queried", "probe:switch_inside_reusable_search", "probe:twin_queried",
-                           "probe:contract_through_interface_caches", "probe:nested_reentrant_query"]}
+                           "probe:contract_through_interface_caches", "probe:nested_reentrant_query", "probe:shared_mutable_args", "disk_error_injected"]}
 
 
 def violation_class(v):
@@ -69,7 +69,8 @@ _WL_FILES = {"reusable.py": None, "presets.py": None, "interface.py": None,
                                "_deconstruct_tree", "_get_suboptimizer"},
              "path_random.py": {"search", "__call__"},
              # the cached expression objects handed out by the interface are shared between threads too
-             "contract.py": {"__call__"}}
+             "contract.py": {"__call__", "extract_contractions", "make_contractor"},
+             "core.py": {"get_contractor", "sort_contraction_indices", "reset_contraction_indices"}}
 
 
 def _whitelist(base, name, full):
@@ -225,7 +226,10 @@ def gen_case(prop, seed, tier):
            "reconf": sw.random() < 0.5, "path_cache": sw.random() < 0.5}
     sched = {"sampler": sw.choice(["walk", "walk", "pct"]), "p": sw.choice([0.02, 0.05, 0.1, 0.3, 0.6]),
              "depth": sw.randint(1, 3), "seed": sw.randrange(2 ** 31), "est_steps": sw.choice([100, 400, 1500]), "choices": None}
-    return {"seed": seed, "pool": pool, "cfg": cfg, "threads": threads, "sched": sched, "tick": sw.choice([1e-4, 1e-3, 1e-2])}
+    return {"seed": seed, "pool": pool, "cfg": cfg, "threads": threads, "sched": sched, "tick": sw.choice([1e-4, 1e-3, 1e-2]),
+            "args_mode": sw.choice(["fresh", "fresh", "shared-mutable"]),
+            # disk fault: one store of a directory-backed cache fails with ENOSPC (the query may fail; later ones must be right)
+            "disk_error_op": sw.choice([None, None, sw.randint(0, 12)]) if cfg["directory"] else None}
 
 
 # ---------------------------------------------------------------------------
@@ -320,32 +324,53 @@ def run_case(prop, case):
     counters["kind:" + kind] += 1
     sched = simthreads.Scheduler(chooser, _whitelist)
     answers = []  # (thread, k, q index, via, answer or exception)
+    cur_query = {}
+    fault_hit = set()  # (thread, query) during which the injected disk error fired
     log.add("case", case["seed"], cfg, [(q["inputs"], q["output"]) for q in pool], case["threads"])
     nq = 0
     try:
-        with simclock.activate(clk), warnings.catch_warnings():
+        from sim import fs as simfs
+
+        simfs.install()
+        fsim = simfs.SimFS(scratch)
+        with simclock.activate(clk), simfs.activate(fsim), warnings.catch_warnings():
             warnings.simplefilter("ignore")
             _reset_process_globals()
             prng.reseed_globals(prng.H(case["seed"], "threads"))
             shared = _make_shared(ctg, cfg, scratch)
+            if case.get("disk_error_op") is not None:
+                # counted from the first mutating call made on behalf of a query
+                fsim.error_at = {len(fsim.ops) + int(case["disk_error_op"])}
+                fsim.on_error = lambda: fault_hit.add((sched.index_of_current(), cur_query.get(sched.index_of_current())))
             _NESTED["opt"] = shared if not isinstance(shared, str) else None
             _NESTED["depth"] = 0
             _NESTED["answers"] = []
 
             def body(ti, th):
                 def fn():
+                    live_in, live_out, live_sz = [], [], {}
                     for k, qq in enumerate(th["queries"]):
+                        cur_query[ti] = k
                         q = pool[qq["q"] % len(pool)]
                         inputs = tuple(tuple(t) for t in q["inputs"])
                         output = tuple(q["output"])
                         size_dict = dict(q["size_dict"])
+                        if case.get("args_mode") == "shared-mutable" and qq["via"] != "contract":
+                            # this caller keeps ONE set of argument containers and edits them in place per query
+                            live_in[:] = [list(t) for t in q["inputs"]]
+                            live_out[:] = list(q["output"])
+                            live_sz.clear()
+                            live_sz.update(q["size_dict"])
+                            inputs, output, size_dict = live_in, live_out, live_sz
                         try:
                             if qq["via"] == "contract" and (not isinstance(shared, str) or netgen.index_space(size_dict) > 2 ** 14):
                                 qq = dict(qq, via="search")
                             if qq["via"] == "contract":
                                 arrays = netgen.make_arrays(inputs, size_dict, prng.H(case["seed"], "arr", ti, k) % (2 ** 31))
                                 strip = bool(prng.H(case["seed"], "strip", qq["q"]) % 2)  # per contraction, so threads share the cached expression
-                                out = ctg.array_contract(arrays, inputs, output, optimize=shared, canonicalize=True, strip_exponent=strip)
+                                sort_ci = bool(prng.H(case["seed"], "sortci", ti, k) % 2)
+                                out = ctg.array_contract(arrays, inputs, output, optimize=shared, canonicalize=True, strip_exponent=strip,
+                                                         sort_contraction_indices=sort_ci)
                                 if strip:
                                     import numpy as _np
 
@@ -365,7 +390,15 @@ def run_case(prop, case):
                             raise
                         except Exception as e:
                             ans = e
-                        answers.append((ti, k, qq["q"] % len(pool), qq["via"] if not (isinstance(ans, tuple) and len(ans) == 3 and ans[0] == "value") else "contract", ans))
+                        via_eff = qq["via"] if not (isinstance(ans, tuple) and len(ans) == 3 and ans[0] == "value") else "contract"
+                        verdict = None
+                        if via_eff != "contract" and not isinstance(ans, BaseException):
+                            # judged at once: with long-lived argument containers the tree aliases the caller's lists
+                            try:
+                                verdict = ("why", _check_answer(via_eff, ans, q))
+                            except Exception as e:  # malformed answer
+                                verdict = ("why", f"answer could not be inspected: {type(e).__name__}: {e}")
+                        answers.append((ti, k, qq["q"] % len(pool), via_eff, ans, verdict))
                 return fn
 
             fns = [body(ti, th) for ti, th in enumerate(case["threads"])]
@@ -379,7 +412,7 @@ def run_case(prop, case):
             pass
     # ---- oracle: every answer belongs to the query that issued it --------------------
     sizes_asked = C()
-    for (ti, k, qi, via, ans) in answers:
+    for (ti, k, qi, via, ans, verdict) in answers:
         nq += 1
         q = pool[qi]
         sizes_asked[len(q["inputs"])] += 1
@@ -389,6 +422,15 @@ def run_case(prop, case):
             counters["probe:optimal_branch"] += 1
         else:
             counters["probe:hyper_branch"] += 1
+        if isinstance(ans, Exception) and (ti, k) in fault_hit:
+            # the query during which the disk error fired may fail in whatever way the error surfaces (e.g. all its
+            # trials lost, KeyError 'tree'); everything after it must be right again
+            faults["disk_error_surfaced"] += 1
+            continue
+        if type(ans).__name__ == "DiskFault":
+            # the injected disk error may surface from the query that hit it; everything after must be right again
+            faults["disk_error_surfaced"] += 1
+            continue
         if isinstance(ans, simthreads.SimDeadlock):
             violations.append({"oracle": "deadlock",
                                "detail": f"thread {ti} query {k} ({via}, contraction #{qi}): {ans}",
@@ -418,7 +460,7 @@ def run_case(prop, case):
                                    "sig": {"kind": kind, "via": via, "threads": len(case["threads"]), "sequential": sched.switches == 0}})
             log.add("ans", ti, k, qi, via, list(got.shape))
             continue
-        why = _check_answer(via, ans, q)
+        why = verdict[1] if verdict is not None else _check_answer(via, ans, q)
         if why:
             violations.append({"oracle": "answer-belongs-to-another-query",
                                "detail": f"thread {ti} query {k} ({via}, contraction #{qi}, {len(q['inputs'])} tensors): {why}",
@@ -448,6 +490,10 @@ def run_case(prop, case):
         faults["schedule:context_switches"] += sched.switches
     if any(f in ("search", "_maybe_run_optimizer", "_run_optimizer", "last_opt") for (_, _, f) in sched.sig):
         counters["probe:switch_inside_reusable_search"] += 1
+    if "fsim" in dir() and fsim.errors_fired:
+        faults["disk_error_injected"] += fsim.errors_fired
+    if case.get("args_mode") == "shared-mutable":
+        counters["probe:shared_mutable_args"] += 1
     if any(th["start_after"] is not None for th in case["threads"]):
         counters["probe:ident_reused"] += 1
         faults["ident_reuse"] += 1
